@@ -2,4 +2,4 @@
 From Coq Require Import Extraction ExtrOcamlBasic ZArith NArith List.
 From T38 Require Import Base.Bytes Model.Follow.
 Extraction Language OCaml.
-Extraction "model.ml" Z.add Z.of_N Nat.add check_some flen blen bytes_eqb.
+Extraction "model.ml" Z.add Z.of_N Nat.add check_some flen blen bytes_eqb run toy_app.
